@@ -141,9 +141,23 @@ func (x *Exec) invoke(st *State, ins ssa.Instruction, c *ssa.CallCommon, fnv Val
 	default:
 		name = "dynamic"
 	}
-	if callee != nil {
-		st.Events = append(st.Events, "call:"+FuncName(originOf(callee)))
-	}
+	defer func(n int) {
+		// the event is recorded after the "before" site clauses were evaluated
+		ev := ""
+		if callee != nil {
+			ev = "call:" + FuncName(originOf(callee))
+		} else if c.IsInvoke() {
+			ev = "invoke:" + c.Method.Name()
+		}
+		if ev != "" && !st.Dead {
+			// keep program order: insert at the position the call started
+			if n <= len(st.Events) {
+				st.Events = append(st.Events[:n:n], append([]string{ev}, st.Events[n:]...)...)
+			} else {
+				st.Events = append(st.Events, ev)
+			}
+		}
+	}(len(st.Events))
 	siteName := ""
 	if st.Frame.Fn == x.Fn && x.FC != nil && (len(x.FC.Sites) > 0 || len(x.FC.Ghosts) > 0) {
 		switch {
@@ -1068,6 +1082,7 @@ func (x *Exec) havocFramed(st *State, heapKeys []string, allHeap bool, memKeys [
 		}
 		st.Mems[k] = nm
 	}
+	x.entryAssumptions(st, nil)
 }
 
 // ---------------------------------------------------------------------------------------------
